@@ -83,11 +83,12 @@ func guardFor(f func(), scale int) (panicMsg string) {
 			}
 			return msg
 		case <-tick.C:
-			// blocked: the call has not returned and the whole process has used next to no CPU for eight seconds
-			// (a busy machine slows a running call down, it does not stop its CPU clock)
+			// blocked: the call has not returned and the whole process has used next to no CPU for 45 seconds
+			// (a busy machine slows a running call down, it does not stop its CPU clock; a machine that is out of
+			// memory can stall a process for seconds, hence the long window)
 			if cpu := processCPU(); cpu-idleCPU > 30*time.Millisecond {
 				idleCPU, idleSince = cpu, time.Now()
-			} else if idle := time.Since(idleSince); idle >= 8*time.Second {
+			} else if idle := time.Since(idleSince); idle >= 45*time.Second {
 				return fmt.Sprintf("HANG: the call is blocked: it has not returned after %v and the process has been idle for the last %v (deadlock)", time.Since(wall0).Round(time.Second), idle.Round(time.Second))
 			}
 			if wall := time.Since(wall0); wall >= limit {
@@ -99,13 +100,14 @@ func guardFor(f func(), scale int) (panicMsg string) {
 	}
 }
 
-// processCPU is the user+system CPU time this process has consumed.
+// processCPU is the user-mode CPU time this process has consumed (system time is left out: on a machine that is
+// short of memory the kernel burns minutes of it on behalf of a process that computes nothing).
 func processCPU() time.Duration {
 	var ru syscall.Rusage
 	if err := syscall.Getrusage(syscall.RUSAGE_SELF, &ru); err != nil {
 		return 0
 	}
-	return time.Duration(ru.Utime.Nano() + ru.Stime.Nano())
+	return time.Duration(ru.Utime.Nano())
 }
 
 func isHang(msg string) bool { return strings.HasPrefix(msg, "HANG:") }
